@@ -18,6 +18,18 @@ TECH = ("runtime monitoring: generated hostile workload against the real library
 
 # id -> (design section, level text, level note, technique suffix)
 CHECKS = {
+ "C04": ("DESIGN.md §5 C04, Appendix A",
+         "Held on every explored history: invariant walker (link consistency, acyclicity, category order, uniqueness, placement, text adjacency) over all live arena slots and a shadow handle table after every call of >=6*10^4 (quick) random histories with arbitrary live arguments, plus every (operation, node, node) triple on ~2500 small start states, plus a 40 000-cycle slot-churn history; exploration, not proof.",
+         "Live-slot enumeration through the read-only hook; forests <= ~60 nodes, histories <= 40 calls; one open finding (indextree stamp saturation) suppressed by exact signature.",
+         "invariant hook at quiescent points + shadow handle table"),
+ "C05": ("DESIGN.md §5 C05, Appendix A",
+         "Held on every explored call: the real forest is compared node by node (structure, values, liveness, live-slot count, string values) with an independent ordered-forest model after every precondition-satisfying call, exhaustively over all (operation, node, node) triples of ~2500 small start states in both consolidation modes and over >=6*10^4 random histories; exploration, not proof.",
+         "The model transcribes documentation + property statement (Appendix A); survivor choice of an inserted-first text merge is left open as in the documentation.",
+         "reference-model monitor (ordered forest) after every call"),
+ "C06": ("DESIGN.md §5 C06, Appendix A",
+         "Held on every explored call: every call with arbitrary live arguments runs under catch_unwind; around every refused call a snapshot of every live node's value and relations and every root's serialisation is compared; exhaustive over the small-state catalogue (all node pairs incl. illegal ones) plus >=6*10^4 random histories; exploration, not proof.",
+         "Handle-less unreachable nodes left by a refused create-and-append call are not observable and not judged; documented panics of the element-only accessors are allowed.",
+         "before/after snapshot oracle + panic attribution"),
  "C01": ("DESIGN.md §5 C01",
          "Held on every explored tree: >=10^5 (quick) / >=3*10^6 (thorough) abstract documents and fragments from a hostile generator are realised through the creation API, parsing and manipulation histories, serialised, reparsed and compared by an independent read-back; exploration, not proof.",
          "Trusts the harness's own read-back and tree equality; trees <= 40 nodes, depth <= 8, hostile but finite alphabet.",
